@@ -48,3 +48,14 @@ for mid, d in sorted(src.items()):
     json.dump(meta, open(os.path.join(out, 'meta.json'), 'w'), indent=1)
     kept += 1
 print("kept", kept)
+
+# index table
+rows = []
+for d in sorted(glob.glob(os.path.join(root, 'C*'))):
+    m = json.load(open(os.path.join(d, 'meta.json')))
+    own = m['property']
+    caught, missed = m['checks_run']['caught_by'], m['checks_run']['not_caught_by']
+    verdict = "own check" if own in caught else ("other check" if caught else "NOT caught")
+    rows.append(f"| {m['id']} | {m['title'][:110].replace('|','/')} | {', '.join(caught) or '-'} | {', '.join(missed) or '-'} | {verdict} |")
+open(os.path.join(root, 'INDEX.md'), 'w').write("| id | change | caught by (quick) | run but silent | verdict |\n|---|---|---|---|---|\n" + "\n".join(rows) + "\n")
+print("index rows", len(rows))
